@@ -683,8 +683,13 @@ def eval_block_case(model, case):
                 d["module"] = cls
                 break
         if d is None:
-            n0, n1 = s.to_gbasis().norm_cont, new.to_gbasis().norm_cont
-            for j in range(m):
+            n0, n1 = np.asarray(s.to_gbasis().norm_cont), np.asarray(new.to_gbasis().norm_cont)
+            ncart = (s.l + 1) * (s.l + 2) // 2
+            if n0.shape != (m, ncart) or n1.shape != (m, ncart):
+                # documented shape of norm_cont: (number of segmented contractions, number of Cartesian components)
+                d = {"kind": "shape", "module": "norm_cont", "impl_shape": [list(n0.shape), list(n1.shape)],
+                     "expected_shape": [m, ncart]}
+            for j in range(m if d is None else 0):
                 d = close(n0[j] / (abs(float(kk)) if j == rw["col"] else 1.0), n1[j], TOL, BLOCK_FLOOR,
                           "norm_cont row %d after factor %s on column %d" % (j, kk, rw["col"]))
                 if d:
